@@ -171,6 +171,7 @@ class MarginRule(cssrule.CSSRule):
                 # TODO?
                 # , exception=xml.dom.InvalidModificationErr
             ),
+            Sequence(PreDef.S(), minmax=lambda: (0, None)),
             PreDef.char('OPEN', '{'),
             Sequence(
                 Choice(PreDef.unknownrule(toStore='@'), styletokens),
@@ -178,8 +179,10 @@ class MarginRule(cssrule.CSSRule):
             ),
             PreDef.char('CLOSE', '}', stopAndKeep=True),
         )
-        # parse
-        ok, seq, store, unused = ProdParser().parse(cssText, 'MarginRule', prods)
+        # parse, white space is significant in values (``calc(1px + 2px)``)
+        ok, seq, store, unused = ProdParser().parse(
+            cssText, 'MarginRule', prods, checkS=True
+        )
 
         if ok:
             # TODO: use seq for serializing instead of fixed stuff?
